@@ -3,7 +3,8 @@
    Part 2: capability keys are injective for attribute names shorter than 10^39 bytes (cap_key_inj).
    Part 3: the schema-level descendant search finds every type-level path (is_descendant_ty_complete, reusing the DFS proof of
            SchemaResolveProofs); run-time ancestors have ancestor types (reach_types); `in` on typed operands (do_in_total, do_in_false);
-           completeness of the action-graph search (is_action_ty_desc_complete);
+           completeness of the action-graph searches (is_action_ty_desc_complete, areach_complete); store ancestors of a declared action
+           (reach_action); `l in w` for operands given by uids (do_in_uids_single / do_in_uids_set);
            the hypotheses agraph_wf / actions_conform / store_types_known (in_hyps).
    Part 4: schema_wf / tenv_wf; attribute lookup (get_attr_typed), `has` (has_attr_typed), tags (get_tag_typed, has_tags_false).
    Part 5: extension calls (call_ext_sound). *)
@@ -746,6 +747,104 @@ Section DescC.
     Qed.
   End AWalk.
 
+  Definition argo (f : nat) (target : uid) : list uid -> list uid -> bool * list uid :=
+    fix go (ps : list uid) (vis : list uid) : bool * list uid :=
+      match ps with
+      | [] => (false, vis)
+      | p :: r => if uid_eqb p target then (true, vis)
+                  else let '(b, v) := areach sch f p target vis in if b then (true, v) else go r v
+      end.
+  Lemma areach_S f u target vis :
+    areach sch (S f) u target vis =
+    if umem u vis then (false, vis) else
+    match aparents sch u with None => (false, u :: vis) | Some ps => argo f target ps (u :: vis) end.
+  Proof. reflexivity. Qed.
+
+  Section AReach.
+    Variable target : uid.
+    (* the same for the search for one target action (areach) *)
+    Definition rexplored (V V' : list uid) : Prop :=
+      incl V V' /\ forall x, In x V' -> ~ In x V -> forall p, aedge x p -> p <> target /\ In p V'.
+
+    Lemma rexplored_refl V : rexplored V V.
+    Proof. split; [apply incl_refl|]. intros x H1 H2. contradiction. Qed.
+
+    Lemma rexplored_trans A B C : rexplored A B -> rexplored B C -> rexplored A C.
+    Proof.
+      intros [I1 E1] [I2 E2]. split; [eapply incl_tran; eauto|].
+      intros x HxC HxA p Hp.
+      destruct (in_dec uid_dec x B) as [HB|HB].
+      - destruct (E1 x HB HxA p Hp) as [Hne Hin]. split; [exact Hne | apply I2, Hin].
+      - apply (E2 x HxC HB p Hp).
+    Qed.
+
+    Lemma areach_false : forall fuel u V V', (aunv V + 1 <= fuel)%nat -> areach sch fuel u target V = (false, V') ->
+      rexplored V V' /\ In u V'.
+    Proof.
+      induction fuel as [|f IH]; intros u V V' Hf H; [lia|].
+      rewrite areach_S in H. destruct (umem u V) eqn:Em.
+      - inversion H; subst. split; [apply rexplored_refl | apply umem_In, Em].
+      - destruct (aparents sch u) as [ps|] eqn:Ep.
+        + assert (Hkey : In u akeys) by (apply aparents_In in Ep; unfold akeys; apply in_map_iff; exists (u, ps); auto).
+          assert (Hlt : (aunv (u :: V) < aunv V)%nat).
+          { apply (SRP.filter_length_strict _ _ _ u); auto.
+            - intros x _ Hx. destruct (umem x V) eqn:E; [|reflexivity].
+              apply umem_In in E. assert (E' : umem x (u :: V) = true) by (apply umem_In; right; exact E).
+              rewrite E' in Hx. discriminate.
+            - rewrite Em. reflexivity.
+            - assert (E' : umem u (u :: V) = true) by (apply umem_In; left; reflexivity). rewrite E'. reflexivity. }
+          assert (G : forall qs v, (aunv v + 1 <= f)%nat -> argo f target qs v = (false, V') ->
+                        rexplored v V' /\ forall p, In p qs -> p <> target /\ In p V').
+          { induction qs as [|q r IHr]; intros v Hv Hg; cbn [argo] in Hg.
+            - inversion Hg; subst. split; [apply rexplored_refl | intros p []].
+            - destruct (uid_eqb q target) eqn:Eq0; [discriminate|]. assert (Eq : q <> target) by (intros ->; rewrite uid_eqb_refl in Eq0; discriminate).
+              destruct (areach sch f q target v) as [[|] v1] eqn:E; [discriminate|].
+              destruct (IH _ _ _ Hv E) as [Ex1 Hp1].
+              destruct (IHr v1) as [Ex2 Hr]; [pose proof (aunv_mono _ _ (proj1 Ex1)); lia | exact Hg |].
+              split; [eapply rexplored_trans; eauto|].
+              intros p [<-|Hp]; [|apply Hr, Hp]. split; [exact Eq | apply (proj1 Ex2), Hp1]. }
+          destruct (G ps (u :: V) ltac:(lia) H) as [[I1 E1] Hps].
+          assert (Hc : In u V') by (apply I1; left; reflexivity).
+          split; [|exact Hc]. split.
+          * intros x Hx. apply I1. right; exact Hx.
+          * intros x HxV' HxV p (qs & Hq & Hp).
+            destruct (uid_dec x u) as [->|Hne].
+            -- rewrite Ep in Hq. inversion Hq; subst qs. apply Hps, Hp.
+            -- apply (E1 x HxV'); [|exists qs; auto]. intros [X|X]; [congruence | contradiction].
+        + inversion H; subst. split; [|left; reflexivity]. split; [intros x Hx; right; exact Hx|].
+          intros x [<-|Hx] Hn p (qs & Hq & _); [congruence | contradiction].
+    Qed.
+
+    
+    Definition rclosed (V : list uid) : Prop := forall x, In x V -> forall p, aedge x p -> p <> target /\ In p V.
+
+    Lemma rclosed_explored V V' : rclosed V -> rexplored V V' -> rclosed V'.
+    Proof.
+      intros Hc [I E] x Hx p Hp. destruct (in_dec uid_dec x V) as [HV|HV].
+      - destruct (Hc x HV p Hp) as [H1 H2]. split; [exact H1 | apply I, H2].
+      - apply (E x Hx HV p Hp).
+    Qed.
+
+    Lemma rclosed_no_target V u p : rclosed V -> In u V -> aclosure u p -> p <> target.
+    Proof.
+      intros Hc Hu Hp.
+      assert (G : forall x y, clos_trans uid aedge x y -> In x V -> In y V /\ y <> target).
+      { intros x y X. induction X as [x y X | x y z _ IH1 _ IH2]; intros Hx.
+        - destruct (Hc x Hx y X) as [Hne Hy]. split; assumption.
+        - apply IH2. apply (IH1 Hx). }
+      apply (G _ _ Hp Hu).
+    Qed.
+  End AReach.
+
+  (* completeness of isActionDescendant: a path in the action graph to the target is always found *)
+  Theorem areach_complete u p : aclosure u p -> fst (areach sch (S (List.length (ts_agraph sch))) u p []) = true.
+  Proof.
+    intros Hp. destruct (areach sch (S (List.length (ts_agraph sch))) u p []) as [[|] V'] eqn:E; [reflexivity|]. exfalso.
+    destruct (areach_false p _ _ _ _ (aunv_le []) E) as [Ex Hu].
+    assert (Hc : rclosed p V') by (apply (rclosed_explored p [] V'); [intros x [] | exact Ex]).
+    apply (rclosed_no_target p V' u p Hc Hu Hp). reflexivity.
+  Qed.
+
   Lemma is_action_ty_desc_eq child anc :
     is_action_ty_desc sch child anc = is_action_type child && is_action_type anc && fst (ogo anc child (ts_agraph sch) []).
   Proof. reflexivity. Qed.
@@ -768,8 +867,10 @@ Section DescC.
      (b) an action entity type is neither a declared nor an enumerated entity type (Cedar reserves the type name Action; Go's
          Validator.Entity tests isActionEntity FIRST, so for such a name entity_ok and the Go code would disagree anyway);
      (c) no declared entity type lists an action entity type among its parent types (memberOfTypes are entity types; with (b) this is
-         "every parent type is declared or enumerated"). *)
+         "every parent type is declared or enumerated");
+     (d) ts_actions and the keys of ts_agraph are the same set (both list the resolved schema's Actions map). *)
   Definition agraph_wf : Prop :=
+    (forall u, In u (ts_actions sch) <-> In u akeys) /\
     (forall a ps, In (a, ps) (ts_agraph sch) -> is_action_type (fst a) = true /\ forall p, In p ps -> In p akeys) /\
     (forall n, is_action_type n = true -> entity_of sch n = None /\ smem n (ts_enums sch) = false) /\
     (forall n te p, entity_of sch n = Some te -> In p (te_parents te) -> is_action_type p = false).
@@ -791,12 +892,12 @@ Section DescC.
 
   Lemma akey_action u : agraph_wf -> In u akeys -> is_action_type (fst u) = true.
   Proof.
-    intros (Ha & _) Hk. unfold akeys in Hk. apply in_map_iff in Hk. destruct Hk as ([a ps] & <- & Hin). apply (Ha _ _ Hin).
+    intros (_ & Ha & _) Hk. unfold akeys in Hk. apply in_map_iff in Hk. destruct Hk as ([a ps] & <- & Hin). apply (Ha _ _ Hin).
   Qed.
 
   Lemma aedge_target_action u p : agraph_wf -> aedge u p -> is_action_type (fst p) = true.
   Proof.
-    intros Hw (ps & Hps & Hp). apply akey_action; [exact Hw|]. destruct Hw as (Ha & _). apply aparents_In in Hps. apply (Ha _ _ Hps), Hp.
+    intros Hw (ps & Hps & Hp). apply akey_action; [exact Hw|]. destruct Hw as (_ & Ha & _). apply aparents_In in Hps. apply (Ha _ _ Hps), Hp.
   Qed.
 
   Lemma tedge_last x y : clos_trans _ tedge x y -> exists w, tedge w y.
@@ -818,7 +919,7 @@ Section DescC.
       + left. apply t_step; exact Hedge.
       + left. eapply t_trans; [exact IH | apply t_step; exact Hedge].
       + exfalso. destruct (aclosure_last _ _ IH) as (w & Hwy). pose proof (aedge_target_action _ _ Hw Hwy) as Hy.
-        destruct Hw as (_ & Hb & _). destruct (Hb _ Hy) as [Hn _]. unfold entity_of in Hn. congruence.
+        destruct Hw as (_ & _ & Hb & _). destruct (Hb _ Hy) as [Hn _]. unfold entity_of in Hn. congruence.
     - destruct Hok as (_ & _ & Henum). destruct (smem (fst y) (ts_enums sch)) eqn:Es.
       + rewrite (Henum eq_refl) in Hz. destruct Hz.
       + assert (Hy : is_action_type (fst y) = true).
@@ -828,7 +929,7 @@ Section DescC.
         * right. exact Hcl.
         * exfalso. destruct (tedge_last _ _ IH) as (w & Hwy). unfold tedge, tparents in Hwy.
           destruct (entity_of sch w) as [tw|] eqn:Ew; [|destruct Hwy].
-          destruct Hw as (_ & _ & Hc). rewrite (Hc _ _ _ Ew Hwy) in Hy. discriminate.
+          destruct Hw as (_ & _ & _ & Hc). rewrite (Hc _ _ _ Ew Hwy) in Hy. discriminate.
         * right. eapply t_trans; eauto.
   Qed.
 
@@ -853,6 +954,21 @@ Section DescC.
     - destruct (aclosure_first _ _ H) as (z & Hz). apply akey_action; [exact Hw | eapply aedge_key; eauto].
     - destruct (aclosure_last _ _ H) as (w & Hwb). eapply aedge_target_action; eauto.
   Qed.
+  Lemma tedge_first x y : clos_trans _ tedge x y -> exists w, tedge x w.
+  Proof. intros H. induction H as [x y H|x y z _ IH1 _ _]; [eauto | exact IH1]. Qed.
+
+  (* the store ancestors of a DECLARED ACTION are its strict ancestors in the action graph, which are declared actions *)
+  Lemma reach_action st l x : store_ok sch st -> in_hyps st -> In l (ts_actions sch) -> reach_st st l x ->
+    l = x \/ (aclosure l x /\ In x (ts_actions sch)).
+  Proof.
+    intros Hst Hh Hl Hr. destruct (reach_types st l x Hst Hh Hr) as [->|[H|H]]; [left; reflexivity | exfalso | right].
+    - destruct Hh as (Hw & _). destruct (tedge_first _ _ H) as (w & Hw1). unfold tedge, tparents in Hw1.
+      destruct (entity_of sch (fst l)) as [te|] eqn:Ee; [|destruct Hw1].
+      pose proof (akey_action l Hw) as Ha. destruct Hw as (Hd & _ & Hb & _). specialize (Ha (proj1 (Hd l) Hl)).
+      destruct (Hb _ Ha) as [Hn _]. congruence.
+    - split; [exact H|]. destruct Hh as ((Hd & Ha & _) & _). destruct (aclosure_last _ _ H) as (w & ps & Hps & Hx).
+      apply aparents_In in Hps. apply Hd. apply (Ha _ _ Hps), Hx.
+  Qed.
 End DescC.
 
 (* do_in on typed operands *)
@@ -870,6 +986,51 @@ Lemma all_entities_any l : Forall (fun v => exists t i, v = VEntity t i) l -> ex
 Proof.
   induction l as [|v l IH]; intros H; [exists []; reflexivity|].
   inversion H as [|x y (t & i & ->) Hl]; subst. destruct (IH Hl) as (us & E). cbn [all_entities]. rewrite E. eexists; reflexivity.
+Qed.
+
+Definition ent_of (u : uid) : value := VEntity (fst u) (snd u).
+
+Lemma all_entities_map l : Forall (fun v => exists u, v = ent_of u) l -> exists us, all_entities l = Some us /\ l = map ent_of us.
+Proof.
+  induction l as [|v l IH]; intros H; [exists []; auto|].
+  inversion H as [|x y (u & ->) Hl]; subst. destruct (IH Hl) as (us & E & ->). cbn [all_entities ent_of]. rewrite E.
+  exists ((fst u, snd u) :: us). split; [reflexivity|]. reflexivity.
+Qed.
+
+Lemma ent_of_inj u v : ent_of u = ent_of v -> u = v.
+Proof. destruct u, v. unfold ent_of. cbn. intros H. inversion H. reflexivity. Qed.
+
+Lemma veq_ent_of u v : veq (ent_of u) v = true -> v = ent_of u.
+Proof.
+  destruct u as [t i]. unfold ent_of. cbn [fst snd]. destruct v; cbn [veq]; try discriminate.
+  intros H. apply andb_true_iff in H. destruct H as [H1 H2]. apply str_eqb_eq in H1. apply str_eqb_eq in H2. subst. reflexivity.
+Qed.
+
+(* the set built from a list of entity values has the same members *)
+Lemma dedup_ents rs : exists us, all_entities (dedup (map ent_of rs) []) = Some us /\ forall u, In u us <-> In u rs.
+Proof.
+  assert (HF : Forall (fun v => exists u, v = ent_of u) (dedup (map ent_of rs) [])).
+  { rewrite Forall_forall. intros v Hv. destruct (dedup_incl _ _ _ Hv) as [Hin|[]]. apply in_map_iff in Hin. destruct Hin as (u & <- & _). eauto. }
+  destruct (all_entities_map _ HF) as (us & E & Hm). exists us. split; [exact E|]. intros u. split.
+  - intros Hu. assert (Hin : In (ent_of u) (dedup (map ent_of rs) [])) by (rewrite Hm; apply in_map, Hu).
+    destruct (dedup_incl _ _ _ Hin) as [H|[]]. apply in_map_iff in H. destruct H as (u' & E' & Hu'). apply ent_of_inj in E'. subst. exact Hu'.
+  - intros Hu. assert (Hv : vmem (ent_of u) (map ent_of rs) = true).
+    { apply vmem_true_iff. exists (ent_of u). split; [apply in_map, Hu | apply veq_refl]. }
+    rewrite <- mk_set_vmem in Hv. apply vmem_true_iff in Hv. destruct Hv as (y & Hy & Ey). apply veq_ent_of in Ey. subst y.
+    rewrite Hm in Hy. apply in_map_iff in Hy. destruct Hy as (u' & E' & Hu'). apply ent_of_inj in E'. subst. exact Hu'.
+Qed.
+
+(* `l in w` for an entity or a set of entities given by their uids *)
+Lemma do_in_uids_single st l u : exists r, do_in st l (ent_of u) = Ok (VBool r) /\ (r = true <-> reach_st st l u).
+Proof.
+  destruct u as [t i]. unfold ent_of. cbn [fst snd do_in]. destruct (eval_in_one_correct st l (t, i)) as (r & E & Hiff). rewrite E. exists r. auto.
+Qed.
+
+Lemma do_in_uids_set st l rs : exists r, do_in st l (mk_set (map ent_of rs)) = Ok (VBool r) /\ (r = true <-> exists x, In x rs /\ reach_st st l x).
+Proof.
+  unfold mk_set. cbn [do_in]. destruct (dedup_ents rs) as (us & E & Hm). rewrite E.
+  destruct (eval_in_set_correct st l us) as (r & E2 & Hiff). rewrite E2. exists r. split; [reflexivity|].
+  rewrite Hiff. split; intros (x & Hx & Hr); exists x; (split; [apply Hm, Hx | exact Hr]).
 Qed.
 
 (* rhs of `in`: typed entity or set of entities *)
